@@ -17,7 +17,7 @@ def effectTable : List FnRow := [
   ⟨[], []⟩,  -- 3 astral.LocationInfo.timezone_group
   ⟨[], []⟩,  -- 4 astral.LocationInfo.tzinfo
   ⟨[], [7]⟩,  -- 5 astral.Observer.__setattr__
-  ⟨[.readsClock, .io], [125]⟩,  -- 6 astral.__main__.<module>
+  ⟨[.readsClock, .io], [124]⟩,  -- 6 astral.__main__.<module>
   ⟨[], []⟩,  -- 7 astral.dms_to_float
   ⟨[], []⟩,  -- 8 astral.geocoder.<module>
   ⟨[.mutatesParam], [12, 15]⟩,  -- 9 astral.geocoder._add_location_to_db  (store through db)
@@ -47,125 +47,124 @@ def effectTable : List FnRow := [
   ⟨[], []⟩,  -- 33 astral.location.Location.__eq__
   ⟨[.mutatesParam], []⟩,  -- 34 astral.location.Location.__init__  (store through self; store through self; store through self)
   ⟨[], [42, 44, 50, 56, 67]⟩,  -- 35 astral.location.Location.__repr__
-  ⟨[], [42, 44, 67, 69, 71, 107]⟩,  -- 36 astral.location.Location.blue_hour
-  ⟨[], [42, 44, 59, 67, 69, 71, 108]⟩,  -- 37 astral.location.Location.dawn
-  ⟨[], [42, 44, 67, 69, 71, 109]⟩,  -- 38 astral.location.Location.daylight
-  ⟨[], [42, 44, 59, 67, 69, 71, 110]⟩,  -- 39 astral.location.Location.dusk
-  ⟨[], [42, 44, 67, 69, 71, 116]⟩,  -- 40 astral.location.Location.golden_hour
+  ⟨[], [42, 44, 67, 69, 71, 106]⟩,  -- 36 astral.location.Location.blue_hour
+  ⟨[], [42, 44, 59, 67, 69, 71, 107]⟩,  -- 37 astral.location.Location.dawn
+  ⟨[], [42, 44, 67, 69, 71, 108]⟩,  -- 38 astral.location.Location.daylight
+  ⟨[], [42, 44, 59, 67, 69, 71, 109]⟩,  -- 39 astral.location.Location.dusk
+  ⟨[], [42, 44, 67, 69, 71, 115]⟩,  -- 40 astral.location.Location.golden_hour
   ⟨[], [42, 44, 50, 56, 67]⟩,  -- 41 astral.location.Location.info
   ⟨[], []⟩,  -- 42 astral.location.Location.latitude
   ⟨[.mutatesParam], [7]⟩,  -- 43 astral.location.Location.latitude.setter  (store through self)
   ⟨[], []⟩,  -- 44 astral.location.Location.longitude
   ⟨[.mutatesParam], [7]⟩,  -- 45 astral.location.Location.longitude.setter  (store through self)
-  ⟨[], [42, 44, 67, 69, 71, 119]⟩,  -- 46 astral.location.Location.midnight
-  ⟨[], [69, 88]⟩,  -- 47 astral.location.Location.moon_phase
-  ⟨[], [42, 44, 67, 69, 71, 86]⟩,  -- 48 astral.location.Location.moonrise
-  ⟨[], [42, 44, 67, 69, 71, 87]⟩,  -- 49 astral.location.Location.moonset
+  ⟨[], [42, 44, 67, 69, 71, 118]⟩,  -- 46 astral.location.Location.midnight
+  ⟨[], [69, 87]⟩,  -- 47 astral.location.Location.moon_phase
+  ⟨[], [42, 44, 67, 69, 71, 85]⟩,  -- 48 astral.location.Location.moonrise
+  ⟨[], [42, 44, 67, 69, 71, 86]⟩,  -- 49 astral.location.Location.moonset
   ⟨[], []⟩,  -- 50 astral.location.Location.name
   ⟨[.mutatesParam], []⟩,  -- 51 astral.location.Location.name.setter  (store through self)
-  ⟨[], [42, 44, 67, 69, 71, 121]⟩,  -- 52 astral.location.Location.night
-  ⟨[], [42, 44, 67, 69, 71, 122]⟩,  -- 53 astral.location.Location.noon
+  ⟨[], [42, 44, 67, 69, 71, 120]⟩,  -- 52 astral.location.Location.night
+  ⟨[], [42, 44, 67, 69, 71, 121]⟩,  -- 53 astral.location.Location.noon
   ⟨[], [42, 44]⟩,  -- 54 astral.location.Location.observer
-  ⟨[], [42, 44, 67, 69, 71, 124]⟩,  -- 55 astral.location.Location.rahukaalam
+  ⟨[], [42, 44, 67, 69, 71, 123]⟩,  -- 55 astral.location.Location.rahukaalam
   ⟨[], []⟩,  -- 56 astral.location.Location.region
   ⟨[.mutatesParam], []⟩,  -- 57 astral.location.Location.region.setter  (store through self)
-  ⟨[], [42, 44, 71, 95, 106]⟩,  -- 58 astral.location.Location.solar_azimuth
+  ⟨[], [42, 44, 71, 94, 105]⟩,  -- 58 astral.location.Location.solar_azimuth
   ⟨[], []⟩,  -- 59 astral.location.Location.solar_depression
   ⟨[.mutatesParam], []⟩,  -- 60 astral.location.Location.solar_depression.setter  (store through self; store through self; store through self)
-  ⟨[], [42, 44, 71, 95, 112]⟩,  -- 61 astral.location.Location.solar_elevation
+  ⟨[], [42, 44, 71, 94, 111]⟩,  -- 61 astral.location.Location.solar_elevation
   ⟨[], [61]⟩,  -- 62 astral.location.Location.solar_zenith
-  ⟨[], [42, 44, 59, 67, 69, 71, 125]⟩,  -- 63 astral.location.Location.sun
-  ⟨[], [42, 44, 67, 69, 71, 133]⟩,  -- 64 astral.location.Location.sunrise
-  ⟨[], [42, 44, 67, 69, 71, 134]⟩,  -- 65 astral.location.Location.sunset
-  ⟨[], [42, 44, 67, 69, 71, 135]⟩,  -- 66 astral.location.Location.time_at_elevation
+  ⟨[], [42, 44, 59, 67, 69, 71, 124]⟩,  -- 63 astral.location.Location.sun
+  ⟨[], [42, 44, 67, 69, 71, 132]⟩,  -- 64 astral.location.Location.sunrise
+  ⟨[], [42, 44, 67, 69, 71, 133]⟩,  -- 65 astral.location.Location.sunset
+  ⟨[], [42, 44, 67, 69, 71, 134]⟩,  -- 66 astral.location.Location.time_at_elevation
   ⟨[], []⟩,  -- 67 astral.location.Location.timezone
   ⟨[.mutatesParam], []⟩,  -- 68 astral.location.Location.timezone.setter  (store through self)
-  ⟨[], [71, 144]⟩,  -- 69 astral.location.Location.today
-  ⟨[], [42, 44, 67, 69, 71, 137]⟩,  -- 70 astral.location.Location.twilight
+  ⟨[], [71, 143]⟩,  -- 69 astral.location.Location.today
+  ⟨[], [42, 44, 67, 69, 71, 136]⟩,  -- 70 astral.location.Location.twilight
   ⟨[], []⟩,  -- 71 astral.location.Location.tzinfo
   ⟨[], []⟩,  -- 72 astral.moon.<module>
-  ⟨[], []⟩,  -- 73 astral.moon._days_since_j2000
-  ⟨[], [26]⟩,  -- 74 astral.moon._phase_asfloat
-  ⟨[], [73, 83, 95, 99]⟩,  -- 75 astral.moon.azimuth
-  ⟨[], [73, 83, 95, 99]⟩,  -- 76 astral.moon.elevation
-  ⟨[], []⟩,  -- 77 astral.moon.interpolate
-  ⟨[], [79, 82]⟩,  -- 78 astral.moon.longitude_lunar_ascending_node
-  ⟨[], []⟩,  -- 79 astral.moon.moon_argument_of_latitude
-  ⟨[], []⟩,  -- 80 astral.moon.moon_mean_anomoly
-  ⟨[], []⟩,  -- 81 astral.moon.moon_mean_elongation_from_sun
-  ⟨[], []⟩,  -- 82 astral.moon.moon_mean_longitude
-  ⟨[], [78, 79, 80, 81, 82, 84, 91, 92, 93]⟩,  -- 83 astral.moon.moon_position
-  ⟨[], []⟩,  -- 84 astral.moon.moon_position._calc_value
-  ⟨[.mutatesParam], [90]⟩,  -- 85 astral.moon.moon_transit_event  (store through window; store through window; store through window)
-  ⟨[], [89, 144]⟩,  -- 86 astral.moon.moonrise
-  ⟨[], [89, 144]⟩,  -- 87 astral.moon.moonset
-  ⟨[], [74, 144]⟩,  -- 88 astral.moon.phase
-  ⟨[], [28, 77, 83, 85, 90, 99]⟩,  -- 89 astral.moon.riseset
-  ⟨[], []⟩,  -- 90 astral.moon.sgn
-  ⟨[], []⟩,  -- 91 astral.moon.sun_mean_anomoly
-  ⟨[], []⟩,  -- 92 astral.moon.sun_mean_longitude
-  ⟨[], []⟩,  -- 93 astral.moon.venus_mean_longitude
-  ⟨[], [76]⟩,  -- 94 astral.moon.zenith
-  ⟨[.readsClock], []⟩,  -- 95 astral.now
-  ⟨[], []⟩,  -- 96 astral.refraction_at_zenith
-  ⟨[], []⟩,  -- 97 astral.sidereal.<module>
-  ⟨[], [28]⟩,  -- 98 astral.sidereal.gmst
-  ⟨[], [98]⟩,  -- 99 astral.sidereal.lmst
-  ⟨[], []⟩,  -- 100 astral.sun.<module>
-  ⟨[], [26, 31, 113]⟩,  -- 101 astral.sun._midnight_utc
-  ⟨[], [26, 31, 113]⟩,  -- 102 astral.sun._noon_utc
-  ⟨[], []⟩,  -- 103 astral.sun.adjust_to_horizon
-  ⟨[], []⟩,  -- 104 astral.sun.adjust_to_obscuring_feature
-  ⟨[], [103, 104]⟩,  -- 105 astral.sun.adjustment_for_elevation
-  ⟨[], [95, 140]⟩,  -- 106 astral.sun.azimuth
-  ⟨[], [135, 144]⟩,  -- 107 astral.sun.blue_hour
-  ⟨[], [136, 144]⟩,  -- 108 astral.sun.dawn
-  ⟨[], [133, 134, 144]⟩,  -- 109 astral.sun.daylight
-  ⟨[], [136, 144]⟩,  -- 110 astral.sun.dusk
-  ⟨[], []⟩,  -- 111 astral.sun.eccentric_location_earth_orbit
-  ⟨[], [95, 139]⟩,  -- 112 astral.sun.elevation
-  ⟨[], [111, 114, 115, 138]⟩,  -- 113 astral.sun.eq_of_time
-  ⟨[], []⟩,  -- 114 astral.sun.geom_mean_anomaly_sun
-  ⟨[], []⟩,  -- 115 astral.sun.geom_mean_long_sun
-  ⟨[], [135, 144]⟩,  -- 116 astral.sun.golden_hour
-  ⟨[], []⟩,  -- 117 astral.sun.hour_angle
-  ⟨[], []⟩,  -- 118 astral.sun.mean_obliquity_of_ecliptic
-  ⟨[], [101, 144]⟩,  -- 119 astral.sun.midnight
-  ⟨[], []⟩,  -- 120 astral.sun.minutes_to_timedelta
-  ⟨[], [108, 110, 144]⟩,  -- 121 astral.sun.night
-  ⟨[], [102, 144]⟩,  -- 122 astral.sun.noon
-  ⟨[], [118]⟩,  -- 123 astral.sun.obliquity_correction
-  ⟨[], [133, 134, 144]⟩,  -- 124 astral.sun.rahukaalam
-  ⟨[], [108, 110, 122, 133, 134, 144]⟩,  -- 125 astral.sun.sun
-  ⟨[], [132]⟩,  -- 126 astral.sun.sun_apparent_long
-  ⟨[], [123, 126]⟩,  -- 127 astral.sun.sun_declination
-  ⟨[], [114]⟩,  -- 128 astral.sun.sun_eq_of_center
-  ⟨[], [111, 131]⟩,  -- 129 astral.sun.sun_rad_vector
-  ⟨[], [123, 126]⟩,  -- 130 astral.sun.sun_rt_ascension
-  ⟨[], [114, 128]⟩,  -- 131 astral.sun.sun_true_anomoly
-  ⟨[], [115, 128]⟩,  -- 132 astral.sun.sun_true_long
-  ⟨[], [105, 122, 136, 139, 144]⟩,  -- 133 astral.sun.sunrise
-  ⟨[], [105, 122, 136, 139, 144]⟩,  -- 134 astral.sun.sunset
-  ⟨[], [136, 144]⟩,  -- 135 astral.sun.time_at_elevation
-  ⟨[], [26, 31, 96, 103, 104, 113, 117, 120, 127]⟩,  -- 136 astral.sun.time_of_transit
-  ⟨[], [108, 110, 133, 134, 144]⟩,  -- 137 astral.sun.twilight
-  ⟨[], [123]⟩,  -- 138 astral.sun.var_y
-  ⟨[], [95, 140]⟩,  -- 139 astral.sun.zenith
-  ⟨[], [26, 31, 96, 113, 127]⟩,  -- 140 astral.sun.zenith_and_azimuth
-  ⟨[], []⟩,  -- 141 astral.table4.<module>
-  ⟨[], []⟩,  -- 142 astral.time_to_hours
-  ⟨[], [142]⟩,  -- 143 astral.time_to_seconds
-  ⟨[], [95]⟩  -- 144 astral.today
+  ⟨[], [26]⟩,  -- 73 astral.moon._phase_asfloat
+  ⟨[], [28, 82, 94, 98]⟩,  -- 74 astral.moon.azimuth
+  ⟨[], [28, 82, 94, 98]⟩,  -- 75 astral.moon.elevation
+  ⟨[], []⟩,  -- 76 astral.moon.interpolate
+  ⟨[], [78, 81]⟩,  -- 77 astral.moon.longitude_lunar_ascending_node
+  ⟨[], []⟩,  -- 78 astral.moon.moon_argument_of_latitude
+  ⟨[], []⟩,  -- 79 astral.moon.moon_mean_anomoly
+  ⟨[], []⟩,  -- 80 astral.moon.moon_mean_elongation_from_sun
+  ⟨[], []⟩,  -- 81 astral.moon.moon_mean_longitude
+  ⟨[], [77, 78, 79, 80, 81, 83, 90, 91, 92]⟩,  -- 82 astral.moon.moon_position
+  ⟨[], []⟩,  -- 83 astral.moon.moon_position._calc_value
+  ⟨[.mutatesParam], [89]⟩,  -- 84 astral.moon.moon_transit_event  (store through window; store through window; store through window)
+  ⟨[], [88, 143]⟩,  -- 85 astral.moon.moonrise
+  ⟨[], [88, 143]⟩,  -- 86 astral.moon.moonset
+  ⟨[], [73, 143]⟩,  -- 87 astral.moon.phase
+  ⟨[], [28, 76, 82, 84, 89, 98]⟩,  -- 88 astral.moon.riseset
+  ⟨[], []⟩,  -- 89 astral.moon.sgn
+  ⟨[], []⟩,  -- 90 astral.moon.sun_mean_anomoly
+  ⟨[], []⟩,  -- 91 astral.moon.sun_mean_longitude
+  ⟨[], []⟩,  -- 92 astral.moon.venus_mean_longitude
+  ⟨[], [75]⟩,  -- 93 astral.moon.zenith
+  ⟨[.readsClock], []⟩,  -- 94 astral.now
+  ⟨[], []⟩,  -- 95 astral.refraction_at_zenith
+  ⟨[], []⟩,  -- 96 astral.sidereal.<module>
+  ⟨[], [28]⟩,  -- 97 astral.sidereal.gmst
+  ⟨[], [97]⟩,  -- 98 astral.sidereal.lmst
+  ⟨[], []⟩,  -- 99 astral.sun.<module>
+  ⟨[], [26, 31, 112]⟩,  -- 100 astral.sun._midnight_utc
+  ⟨[], [26, 31, 112]⟩,  -- 101 astral.sun._noon_utc
+  ⟨[], []⟩,  -- 102 astral.sun.adjust_to_horizon
+  ⟨[], []⟩,  -- 103 astral.sun.adjust_to_obscuring_feature
+  ⟨[], [102, 103]⟩,  -- 104 astral.sun.adjustment_for_elevation
+  ⟨[], [94, 139]⟩,  -- 105 astral.sun.azimuth
+  ⟨[], [134, 143]⟩,  -- 106 astral.sun.blue_hour
+  ⟨[], [135, 143]⟩,  -- 107 astral.sun.dawn
+  ⟨[], [132, 133, 143]⟩,  -- 108 astral.sun.daylight
+  ⟨[], [135, 143]⟩,  -- 109 astral.sun.dusk
+  ⟨[], []⟩,  -- 110 astral.sun.eccentric_location_earth_orbit
+  ⟨[], [94, 138]⟩,  -- 111 astral.sun.elevation
+  ⟨[], [110, 113, 114, 137]⟩,  -- 112 astral.sun.eq_of_time
+  ⟨[], []⟩,  -- 113 astral.sun.geom_mean_anomaly_sun
+  ⟨[], []⟩,  -- 114 astral.sun.geom_mean_long_sun
+  ⟨[], [134, 143]⟩,  -- 115 astral.sun.golden_hour
+  ⟨[], []⟩,  -- 116 astral.sun.hour_angle
+  ⟨[], []⟩,  -- 117 astral.sun.mean_obliquity_of_ecliptic
+  ⟨[], [100, 143]⟩,  -- 118 astral.sun.midnight
+  ⟨[], []⟩,  -- 119 astral.sun.minutes_to_timedelta
+  ⟨[], [107, 109, 143]⟩,  -- 120 astral.sun.night
+  ⟨[], [101, 143]⟩,  -- 121 astral.sun.noon
+  ⟨[], [117]⟩,  -- 122 astral.sun.obliquity_correction
+  ⟨[], [132, 133, 143]⟩,  -- 123 astral.sun.rahukaalam
+  ⟨[], [107, 109, 121, 132, 133, 143]⟩,  -- 124 astral.sun.sun
+  ⟨[], [131]⟩,  -- 125 astral.sun.sun_apparent_long
+  ⟨[], [122, 125]⟩,  -- 126 astral.sun.sun_declination
+  ⟨[], [113]⟩,  -- 127 astral.sun.sun_eq_of_center
+  ⟨[], [110, 130]⟩,  -- 128 astral.sun.sun_rad_vector
+  ⟨[], [122, 125]⟩,  -- 129 astral.sun.sun_rt_ascension
+  ⟨[], [113, 127]⟩,  -- 130 astral.sun.sun_true_anomoly
+  ⟨[], [114, 127]⟩,  -- 131 astral.sun.sun_true_long
+  ⟨[], [104, 121, 135, 138, 143]⟩,  -- 132 astral.sun.sunrise
+  ⟨[], [104, 121, 135, 138, 143]⟩,  -- 133 astral.sun.sunset
+  ⟨[], [135, 143]⟩,  -- 134 astral.sun.time_at_elevation
+  ⟨[], [26, 31, 95, 102, 103, 112, 116, 119, 126]⟩,  -- 135 astral.sun.time_of_transit
+  ⟨[], [107, 109, 132, 133, 143]⟩,  -- 136 astral.sun.twilight
+  ⟨[], [122]⟩,  -- 137 astral.sun.var_y
+  ⟨[], [94, 139]⟩,  -- 138 astral.sun.zenith
+  ⟨[], [26, 31, 95, 112, 126]⟩,  -- 139 astral.sun.zenith_and_azimuth
+  ⟨[], []⟩,  -- 140 astral.table4.<module>
+  ⟨[], []⟩,  -- 141 astral.time_to_hours
+  ⟨[], [141]⟩,  -- 142 astral.time_to_seconds
+  ⟨[], [94]⟩  -- 143 astral.today
 ]
 
 /-- the public sun and moon functions (sun.__all__, moon.__all__, moon angles) -/
-def publicFns : List Nat := [125, 108, 133, 122, 119, 134, 110, 109, 121, 137, 107, 116, 124, 139, 106, 112, 135, 86, 87, 88, 75, 76, 94]
+def publicFns : List Nat := [124, 107, 132, 121, 118, 133, 109, 108, 120, 136, 106, 115, 123, 138, 105, 111, 134, 85, 86, 87, 74, 75, 93]
 
 /-- the public geocoder functions (module-level, not underscore-prefixed) -/
 def geoFns : List Nat := [16, 17, 18, 19, 20, 21]
 
 /-- the functions of astral.julian and the time-unit helpers of astral/__init__ -/
-def julianFns : List Nat := [22, 24, 25, 26, 27, 28, 29, 30, 31, 142, 143]
+def julianFns : List Nat := [22, 24, 25, 26, 27, 28, 29, 30, 31, 141, 142]
 
 /-- every method of `Location` that is a query: not `__init__`, not a property setter -/
 def locationQueryFns : List Nat := [33, 35, 36, 37, 38, 39, 40, 41, 42, 44, 46, 47, 48, 49, 50, 52, 53, 54, 55, 56, 58, 59, 61, 62, 63, 64, 65, 66, 67, 69, 70, 71]
